@@ -465,12 +465,19 @@ def c01_6(ctx, r):
         raise AnalysisError("C01.6", "the batch suffix local (the one statement reading self._batch_index) was not recognised")
     is_suffix = lambda x: isinstance(x, ast.Name) and x.id == SUF
     nfile = 0
+    nfile_inline = []
     ahs_cls = ctx.cls("AsyncHpcSubmitter", "C01.6")
     ainit = ahs_cls.methods["__init__"]
     NAMEV = None
     for s9 in [x for x in ctx.cg.sites_in(mk) if x.constructs == ahs_cls.qual]:
         a9 = ctx.arg_for(s9, ainit, "name")
         NAMEV = a9.id if isinstance(a9, ast.Name) else None
+        if a9 is not None and NAMEV is None:
+            # the name is computed in the constructor call itself
+            for n9 in ctx.nodes_of(mk, s9.node):
+                nfile_inline.append(1)
+                r.check(_mentions(mk, a9, n9, is_suffix), "the HPC job name carries this batch's suffix", key_of(mk, "job name without the batch suffix"), mk.loc(s9.node),
+                        f"`name={ctx.src(a9)}`: two batches get the same job name, hence the same <name>.sh submission script", "never reuses a batch identifier")
     for n in cfg.nodes:
         for c in cfg.calls_at(n):
             fname = ctx.src(c.func).split(".")[-1]
@@ -480,10 +487,20 @@ def c01_6(ctx, r):
             nfile += 1
             r.check(_mentions(mk, tgt, n, is_suffix), f"{fname}: the file name carries this batch's suffix", key_of(mk, f"{fname} target without the batch suffix"), mk.loc(c),
                     f"`{ctx.src(tgt)}` does not depend on the batch suffix: two batches write the same file", "never reuses a batch identifier")
+            # ... and lies in this submission's directory, not in whatever directory the process runs in
+            from ..lib import inline_locals, keeps_directory_of
+
+            full = inline_locals(ctx, mk, tgt, n, depth=4)
+            keeps, occ = keeps_directory_of(full, lambda x: isinstance(x, ast.Attribute) and isinstance(x.value, ast.Name) and x.value.id == mk.params[0] and x.attr in ("_config_file", "_output"))
+            r.check(occ > 0 and keeps, f"{fname}: the per-batch file lies in the submission's directory", key_of(mk, f"{fname} target relative to the working directory"), mk.loc(c),
+                    f"`{ctx.src(full)}` is built from the *name* of the submission's config file only: the per-batch file is written (and referenced by the run script) relative to the working directory, so two "
+                    "submissions started from one directory share config_batch_<n>.json - the later one replaces the job list of the earlier one's queued batches, whose jobs then run twice or never",
+                    "never starts a job's command more than once")
         if n.kind == "stmt" and isinstance(n.ast, ast.Assign) and NAMEV and ctx.src(n.ast.targets[0]) == NAMEV:
             nfile += 1
             r.check(_mentions(mk, n.ast.value, n, is_suffix), "the HPC job name carries this batch's suffix", key_of(mk, "job name without the batch suffix"), mk.loc(n.ast),
                     f"`{ctx.src(n.ast)}`: two batches get the same job name, hence the same <name>.sh submission script", "never reuses a batch identifier")
+    nfile += len(nfile_inline)
     if nfile < 3:
         raise AnalysisError("C01.6", f"only {nfile} per-batch names recognised in _make_async_submitter (config file, run script, job name)")
     sg = ctx.fn("AsyncHpcSubmitter._make_singularity_command", "C01.6")
@@ -601,10 +618,11 @@ def c01_8(ctx, r):
     for s in qs:
         a = s.node.args[0] if s.node.args else None
         ok = False
-        if isinstance(a, ast.Name):
+        if a is not None:
+            from ..lib import is_value_of
+
             for n in ctx.nodes_of(sbt, s.node):
-                ud = ctx.rd(sbt).unique_def(n, a.id)
-                ok = ud is not None and isinstance(ud[1], ast.Call) and ud[1] is mk[0].node
+                ok = is_value_of(ctx, sbt, a, n, mk[0].node)
                 r.check(not guard_forms(ctx, sbt, n), "queue.submit is unconditional in _submit_batch", key_of(sbt, "conditional submit"), s.loc, "queue.submit(...) is conditional in _submit_batch")
         r.check(ok, "the object submitted to the queue is the one just created", key_of(sbt, "submit created batch"), s.loc, "queue.submit does not receive the AsyncHpcSubmitter created for this batch")
     gb = ctx.fn("AsyncHpcSubmitter.get_blocking_jobs", "C01.8")
@@ -699,3 +717,27 @@ def c01_18(ctx, r):
     from .c05 import c05_19
 
     c05_19(ctx, r)
+
+
+@rule(P, "C01.19", "T9", "the persisted status is loaded whole: every field of the model is taken from the file (batch_index, active ids, jobs, version)", min_obligations=2)
+def c01_19(ctx, r):
+    """job_status.json carries batch_index - the next batch number - between rounds.  It has a default (1), so a loader that builds JobStatus
+    from some explicitly named keys and forgets it still runs: every later round numbers its batches from 1 again and overwrites
+    config_batch_<n>.json / run_batch_<n>.sh of batches the scheduler has not started yet.  Decided for both state files: the model is
+    constructed from the loaded mapping with `**data`, or every annotated field of the model is passed."""
+    for fname, cname in (("Cluster._deserialize_jobs", "JobStatus"), ("Cluster._deserialize", "ClusterConfig")):
+        fn = ctx.fn(fname, "C01.19")
+        cls = ctx.cls(cname, "C01.19")
+        sites = [s for s in ctx.cg.sites_in(fn) if (s.constructs or "") == cls.qual]
+        if len(sites) != 1:
+            raise AnalysisError("C01.19", f"{len(sites)} constructions of {cname} in {fname}")
+        c = sites[0].node
+        spread = [k for k in c.keywords if k.arg is None]
+        fields = set()
+        for k in ctx.ix.mro(cls):
+            fields |= set(k.ann_fields)
+        given = {k.arg for k in c.keywords if k.arg is not None}
+        ok = (bool(spread) and not c.args) or fields <= given
+        r.check(ok, f"{cname} is built from the whole file", key_of(fn, f"{cname} fields not loaded: {sorted(fields - given)[:4]}"), fn.loc(c),
+                f"{fname} builds {cname} from {sorted(given)} only: {sorted(fields - given)} fall back to their defaults on every load although the file carries them - e.g. batch_index restarts at 1 in every round, "
+                "so batch numbers (and the per-batch files named after them) are reused", "never reuses a batch identifier")
